@@ -1027,6 +1027,23 @@ def r13_key_immutable(ctx):
                         f'a valid {role} (e.g. 0) is replaced, so events are ordered by a different key than the one requested', where='SimEvent.__init__')
 
 
+def _monotone_counter_store(fn, target, counter_attr):
+    """the store `<counter> = v` is the only statement of an `if v > <counter>:` / `if <counter> < v:` (no else): it can only raise the counter"""
+    from ..core import mangle as _m
+    names = (counter_attr, _m('SimEvent', counter_attr))
+    for st in ast.walk(fn):
+        if isinstance(st, ast.If) and not st.orelse and len(st.body) == 1 and isinstance(st.body[0], ast.Assign) and len(st.body[0].targets) == 1 \
+                and st.body[0].targets[0] is target and isinstance(st.test, ast.Compare) and len(st.test.ops) == 1:
+            v = unparse(st.body[0].value)
+            l, r = st.test.left, st.test.comparators[0]
+            is_counter = lambda e: isinstance(e, ast.Attribute) and e.attr in names
+            if isinstance(st.test.ops[0], ast.Gt) and unparse(l) == v and is_counter(r):
+                return True
+            if isinstance(st.test.ops[0], ast.Lt) and unparse(r) == v and is_counter(l):
+                return True
+    return False
+
+
 def r14_counter(ctx):
     prog = ctx.prog
     ctx.rule('R1.4', 'SimEvent id comes from a class counter incremented exactly once per event; the counter has no other writer')
@@ -1088,6 +1105,8 @@ def r14_counter(ctx):
             for n in walk_shallow(fn):
                 if isinstance(n, ast.Attribute) and isinstance(n.ctx, (ast.Store, ast.Del)) and n.attr in (counter_attr, mangle('SimEvent', counter_attr)):
                     if not (oc is ci and fn is counter_fn):
+                        if oc is ci and _monotone_counter_store(fn, n, counter_attr):
+                            continue            # `if v > counter: counter = v`: the counter only moves forward (restoring ids made elsewhere)
                         writers.append((oc, fn, n, mod))
         ctx.ob('R1.4', 'SimEvent.counter:single-writer', not writers)
         for (oc, fn, n, mod) in writers:
